@@ -1,4 +1,4 @@
-import Heph.Proofs.TransKotlinDoc
+import Heph.Proofs.TransKotlinPrinted
 /-!
 # C12 — translations are faithful to the program's declarations and annotations (Kotlin modelled)
 
@@ -62,6 +62,136 @@ theorem doc_pieces_partial (package : Option String) (p : Program) (h : condOK p
 /-- the text (not only the tags) is independent of the state a declaration is visited in -/
 theorem node_pieces (st : St) (n : Node) (h : okAt true n = true) : obs true (visit st n).2 = sem n := by
   rw [obs_visit true n st h, obs_true_noOther _ (noOther_sem n)]
+
+/-! ## annotations, literals, operators: piece by piece -/
+
+
+/-- a non-layout tag occurs in the doc iff a printed node of the program calls for it (every program) -/
+theorem tag_in_doc_iff (package : Option String) (p : Program) (t : Tag) (ht : t ≠ Tag.other) :
+    (∃ x, (t, x) ∈ kotlinDoc package p) ↔ ∃ m ∈ printedL p.decls, ∃ x, (t, x) ∈ own m := by
+  rw [tag_mem_iff_of_obs_false (doc_tags package p) t ht]
+  simp only [semProgram, mem_semL, Own]
+  constructor
+  · rintro ⟨x, m, hm, hx⟩; exact ⟨m, hm, x, hx⟩
+  · rintro ⟨m, hm, x, hx⟩; exact ⟨x, m, hm, hx⟩
+
+/-- with texts, when `condOK p` -/
+theorem piece_in_doc_iff (package : Option String) (p : Program) (h : condOK p = true) (pc : Piece)
+    (hpc : pc.1 ≠ Tag.other) :
+    pc ∈ kotlinDoc package p ↔ ∃ m ∈ printedL p.decls, pc ∈ own m := by
+  have e : obs true (kotlinDoc package p) = semProgram p := by
+    rw [kotlinDoc, obs_programDoc true _ p h, semProgram, obs_true_noOther _ (noOther_semL _)]
+  have := mem_obs_true pc (kotlinDoc package p)
+  rw [e, semProgram, mem_semL] at this
+  constructor
+  · intro hm; exact this.mpr ⟨hm, hpc⟩
+  · intro hm; exact (this.mp hm).1
+
+/-- a type annotation of variable `v` is printed iff the program has a variable declaration `v` that
+    carries a declared type (every program: an erased annotation is absent, an overwritten one present) -/
+theorem annot_iff_var (package : Option String) (p : Program) (v : String) :
+    (∃ x, (Tag.varAnnot v, x) ∈ kotlinDoc package p) ↔
+      ∃ e f t i, Node.varDecl v e f (some t) i ∈ printedL p.decls := by
+  rw [tag_in_doc_iff package p _ (by simp)]
+  constructor
+  · rintro ⟨m, hm, x, hx⟩
+    obtain ⟨e, f, t, i, rfl, _⟩ := (varAnnot_own v x m).mp hx
+    exact ⟨e, f, t, i, hm⟩
+  · rintro ⟨e, f, t, i, hm⟩
+    exact ⟨_, hm, _, (varAnnot_own v _ _).mpr ⟨e, f, t, i, rfl, rfl⟩⟩
+
+/-- …and what is printed is the declared type (`condOK p`) -/
+theorem annot_var_text (package : Option String) (p : Program) (h : condOK p = true) (v x : String) :
+    (Tag.varAnnot v, x) ∈ kotlinDoc package p ↔
+      ∃ e f t i, Node.varDecl v e f (some t) i ∈ printedL p.decls ∧ x = ": " ++ typeName t := by
+  rw [piece_in_doc_iff package p h _ (by simp)]
+  constructor
+  · rintro ⟨m, hm, hx⟩
+    obtain ⟨e, f, t, i, rfl, hxt⟩ := (varAnnot_own v x m).mp hx
+    exact ⟨e, f, t, i, hm, hxt⟩
+  · rintro ⟨e, f, t, i, hm, hxt⟩
+    exact ⟨_, hm, (varAnnot_own v _ _).mpr ⟨e, f, t, i, rfl, hxt⟩⟩
+
+theorem annot_iff_ret (package : Option String) (p : Program) (f : String) :
+    (∃ x, (Tag.retAnnot f, x) ∈ kotlinDoc package p) ↔
+      ∃ ps t inf body fin ov tps ft, Node.funcDecl f ps (some t) inf body fin ov tps ft ∈ printedL p.decls := by
+  rw [tag_in_doc_iff package p _ (by simp)]
+  constructor
+  · rintro ⟨m, hm, x, hx⟩
+    obtain ⟨ps, t, inf, body, fin, ov, tps, ft, rfl, _⟩ := (retAnnot_own f x m).mp hx
+    exact ⟨ps, t, inf, body, fin, ov, tps, ft, hm⟩
+  · rintro ⟨ps, t, inf, body, fin, ov, tps, ft, hm⟩
+    exact ⟨_, hm, _, (retAnnot_own f _ _).mpr ⟨ps, t, inf, body, fin, ov, tps, ft, rfl, rfl⟩⟩
+
+theorem annot_ret_text (package : Option String) (p : Program) (h : condOK p = true) (f x : String) :
+    (Tag.retAnnot f, x) ∈ kotlinDoc package p ↔
+      ∃ ps t inf body fin ov tps ft, Node.funcDecl f ps (some t) inf body fin ov tps ft ∈ printedL p.decls ∧
+        x = ": " ++ typeName t := by
+  rw [piece_in_doc_iff package p h _ (by simp)]
+  constructor
+  · rintro ⟨m, hm, hx⟩
+    obtain ⟨ps, t, inf, body, fin, ov, tps, ft, rfl, hxt⟩ := (retAnnot_own f x m).mp hx
+    exact ⟨ps, t, inf, body, fin, ov, tps, ft, hm, hxt⟩
+  · rintro ⟨ps, t, inf, body, fin, ov, tps, ft, hm, hxt⟩
+    exact ⟨_, hm, (retAnnot_own f _ _).mpr ⟨ps, t, inf, body, fin, ov, tps, ft, rfl, hxt⟩⟩
+
+/-- an explicit type-argument list of a call of `f` is printed iff the program has a call of `f` with
+    type arguments whose `can_infer_type_args` is false -/
+theorem annot_iff_targs (package : Option String) (p : Program) (f : String) :
+    (∃ x, (Tag.targs f, x) ∈ kotlinDoc package p) ↔
+      ∃ args recv targs rc, Node.call f args recv targs false rc ∈ printedL p.decls ∧ targs ≠ [] := by
+  rw [tag_in_doc_iff package p _ (by simp)]
+  constructor
+  · rintro ⟨m, hm, x, hx⟩
+    obtain ⟨args, recv, targs, rc, rfl, hne, _⟩ := (targs_own f x m).mp hx
+    exact ⟨args, recv, targs, rc, hm, hne⟩
+  · rintro ⟨args, recv, targs, rc, hm, hne⟩
+    exact ⟨_, hm, _, (targs_own f _ _).mpr ⟨args, recv, targs, rc, rfl, hne, rfl⟩⟩
+
+/-- every piece a printed node calls for — in particular every literal and every operator of the
+    program — is in the doc, and its text is a part of the emitted text (`condOK p`) -/
+theorem literals_ops_present (package : Option String) (p : Program) (h : condOK p = true)
+    (m : Node) (hm : m ∈ printedL p.decls) (pc : Piece) (hpc : pc ∈ own m) :
+    pc ∈ kotlinDoc package p ∧ ∃ a b, flatten (kotlinDoc package p) = a ++ pc.2 ++ b := by
+  have hno : pc.1 ≠ Tag.other := by
+    have h1 : pc ∈ semL p.decls := (mem_semL pc p.decls).mpr ⟨m, hm, hpc⟩
+    have h2 := noOther_semL p.decls
+    simp only [noOther, List.all_eq_true, bne_iff_ne, ne_eq] at h2
+    exact h2 pc h1
+  have hin := (piece_in_doc_iff package p h pc hno).mpr ⟨m, hm, hpc⟩
+  exact ⟨hin, piece_infix pc _ hin⟩
+
+/-- for every program (no hypothesis): the tag of every such piece occurs -/
+theorem literals_ops_tags (package : Option String) (p : Program)
+    (m : Node) (hm : m ∈ printedL p.decls) (t : Tag) (x : String) (hpc : (t, x) ∈ own m) :
+    ∃ y, (t, y) ∈ kotlinDoc package p := by
+  have hno : t ≠ Tag.other := by
+    have h1 : (t, x) ∈ semL p.decls := (mem_semL _ p.decls).mpr ⟨m, hm, hpc⟩
+    have h2 := noOther_semL p.decls
+    simp only [noOther, List.all_eq_true, bne_iff_ne, ne_eq] at h2
+    exact h2 _ h1
+  exact (tag_in_doc_iff package p t hno).mpr ⟨m, hm, x, hpc⟩
+
+/-- the literals: a string / char / number / Boolean constant of the program is printed with its text -/
+theorem string_literal_present (package : Option String) (p : Program) (h : condOK p = true) (lit : String)
+    (hm : Node.stringC lit ∈ printedL p.decls) :
+    ∃ a b, flatten (kotlinDoc package p) = a ++ lit ++ b :=
+  (literals_ops_present package p h _ hm (Tag.lit, lit) (by simp [own])).2
+
+theorem operator_present (package : Option String) (p : Program) (h : condOK p = true) (k op : String) (l r : Node)
+    (hm : Node.binop k l r op ∈ printedL p.decls) :
+    (Tag.op, op) ∈ kotlinDoc package p :=
+  (literals_ops_present package p h _ hm (Tag.op, op) (by simp [own])).1
+
+/-- conversely a literal piece of the doc is a literal of the program -/
+theorem literal_piece_iff (package : Option String) (p : Program) (h : condOK p = true) (x : String) :
+    (Tag.lit, x) ∈ kotlinDoc package p ↔
+      ∃ m ∈ printedL p.decls, (∃ t, m = .intC x t) ∨ (∃ t, m = .realC x t) ∨ m = .boolC x ∨ m = .charC x ∨
+        m = .stringC x := by
+  rw [piece_in_doc_iff package p h _ (by simp)]
+  constructor
+  · rintro ⟨m, hm, hx⟩; exact ⟨m, hm, (lit_own x m).mp hx⟩
+  · rintro ⟨m, hm, hx⟩; exact ⟨m, hm, (lit_own x m).mpr hx⟩
 
 /-! ## the cut in `visit_conditional` -/
 
